@@ -163,7 +163,7 @@ def shape3d(draw, bs, max_voxels=400_000, max_traces=None, magnitudes="all"):
     return tuple(shape)
 
 
-# "deadedge": live samples with a dead (all-zero) first line and last crossline, as at the rim of a survey
+# "deadedge": live samples with a dead (all-zero) first inline, first and last crossline, as at the rim of a survey
 VALUE_KINDS = ["smooth", "gauss", "const", "huge", "tiny", "mixed", "steps", "zeros_signed", "deadedge"]
 
 
@@ -198,6 +198,7 @@ def make_values(shape, kind, vseed):
         a[0] = 0.0
         if len(shape) == 3:
             a[:, -1] = 0.0
+            a[:, 0] = 0.0      # (first crossline too: the first traces of a crossline-sorted file are then as dead as the first inline)
     else:
         raise ValueError(kind)
     a = np.asarray(a, dtype=np.float64)
